@@ -29,7 +29,13 @@ def ref_joint(x, y):
 def rand_string(rng, L=None, k=None):
     k = k or rng.choice([1, 2, 2, 3, 5, 10, 40])
     L = L or rng.randint(1, 60)
-    alphabet = [chr(c) for c in rng.sample(range(48, 123), k)]
+    pool = list(range(48, 123))
+    if rng.random() < 0.3:
+        # symbols are characters (code points), whatever their encoded width: Latin-1, Greek, CJK, and characters beyond
+        # the Basic Multilingual Plane (emoji, mathematical alphanumerics, Gothic, CJK extension B, the last code point)
+        pool = list(range(48, 60)) + [0xE9, 0x3B1, 0x4E2D, 0xFFFD, 0x1F600, 0x1F601, 0x1F9E0, 0x1D54F, 0x1D550, 0x10348,
+                                      0x20000, 0x2A6D6, 0x10FFFF, 0x10000] + list(range(97, 97 + max(0, k - 26)))
+    alphabet = [chr(c) for c in rng.sample(pool, k)]
     return "".join(rng.choice(alphabet) for _ in range(L))
 
 
